@@ -106,6 +106,10 @@ def gen_cases(ctx):
         err = np.round(rng.uniform(0.1, 5, n) * 128) / 128 + 1 / 128
         clean = bool(rng.random() < 0.7)
         cov = bool(rng.random() < 0.25)
+        if not cov and rng.random() < 0.15:
+            # finite but degenerate uncertainties: exactly zero, or so small that the square underflows -- still observations to keep
+            for _ in range(int(rng.integers(1, 3))):
+                err[int(rng.integers(0, n))] = [0.0, 1e-170][int(rng.integers(0, 2))]
         # non-finite placements
         nf = {"t": [], "rv": [], "err": []}
         if rng.random() < 0.6 and n > 1:
